@@ -23,3 +23,32 @@ def run(ctx):
     ctx.run(bins['c06_array'], args)
     for k in ('c06_sl_lp32', 'c06_sl_wide', 'c06_sl_tiny'):
         ctx.run(bins[k], args, parts=4)
+    buffers(ctx, args)
+
+
+def buffers(ctx, args):
+    """short / char16_t / char buffers through copy_memory_or_grant_access / copy_memory_or_deny_access under each ABI. The
+    library may refuse an element type at compile time ("there may be ABI differences"): then no integer crosses and the
+    property holds for that ABI; any other build failure is a harness error. lp32 (16-bit short) must always build."""
+    from vdriver import CannotDecide
+    import re
+    refused = []
+    for abi in ('lp32', 'wide', 'tiny'):
+        name = 'c06_buf_' + abi
+        try:
+            b = ctx.build(name, 'c06.cpp', opt='-O0', defs=['C06_SL=abi_' + abi, 'C06_BUF'])
+        except CannotDecide as e:
+            log = ''
+            m = re.search(r'log: ([^)]*)\)', str(e))
+            if m:
+                try:
+                    log = open(m.group(1)).read()
+                except OSError:
+                    pass
+            if abi != 'lp32' and 'there may be ABI differences' in log:
+                refused.append(abi)
+                continue
+            ctx.result.crashed.append('build: ' + str(e))
+            continue
+        ctx.run(b, args, parts=1)
+    ctx.extra_cov['buffer_routes_refused_at_compile_time'] = refused
